@@ -233,6 +233,15 @@ func main() {
 	m := &impl{w: w}
 	r := hx.NewRunner(f, "h-gensweep", m, rule)
 	r.KeyOf = keyOf
+	// the declared method set, import list and type references are the model's predictions from the
+	// template's guard table; the property's observables are exit status, gofmt, build and the
+	// compile-time interface assertions
+	r.KindOf = func(d *hx.Disagreement) string {
+		if ws := strings.Fields(d.Request); len(ws) >= 3 && (ws[2] == "methods" || ws[2] == "imports" || ws[1] == "typeref") {
+			return "tie-broken"
+		}
+		return ""
+	}
 	r.Compare = compare
 	r.ShrinkBudget = 4
 	r.ShrinkMax = 6
